@@ -111,7 +111,22 @@ def tuple_state():
             return "%s: tuple state differs from the concatenated tensor state" % m
 
 
-TABLE = {"named_schemes": named_schemes, "observed_order": observed_order, "adaptive_hard": adaptive_hard,
+def adaptive_accuracy_on_decay():
+    """decaying solution over many relaxation times with a tiny absolute tolerance: the local error control must keep the
+    error relative to the *current* magnitude of the solution"""
+    bad = []
+    for m in ("rk45",):
+        rtol = 1e-6
+        ts = torch.linspace(0.0, 25.0, 6, dtype=dt)
+        yt = solve_ivp(lambda t, y: -y, ts, torch.ones(1, dtype=dt), method=m, rtol=rtol, atol=1e-30)
+        ex = torch.exp(-ts).unsqueeze(-1)
+        rel = ((yt - ex).abs() / ex).max().item()
+        if not rel <= 200 * rtol:
+            bad.append("%s: relative error %.2e with rtol %.0e" % (m, rel, rtol))
+    return "; ".join(bad) if bad else None
+
+
+TABLE = {"adaptive_accuracy_on_decay": adaptive_accuracy_on_decay, "named_schemes": named_schemes, "observed_order": observed_order, "adaptive_hard": adaptive_hard,
          "time_reversal": time_reversal, "tuple_state": tuple_state}
 
 if __name__ == "__main__":
